@@ -55,8 +55,11 @@ func (n *Node) Confirm(b *pb.InternalBlock) ledger.ConfirmStatus {
 // Walk calls State.Walk and tracks the asynchronous pool recovery it starts.
 func (n *Node) Walk(target []byte, prune bool) error {
 	before := n.Log.recoverDone()
+	announcedBefore := n.Log.recoverAnnounced()
 	err := n.State.Walk(target, prune)
-	if err == nil {
+	if err == nil || n.Log.recoverAnnounced() > announcedBefore {
+		// a failed walk that gives the pool back announces it (synchronously, inside Walk) with
+		// the message below and then starts the same recovery goroutine
 		n.Log.waitRecover(before + 1)
 	}
 	return err
@@ -70,6 +73,13 @@ func (n *Node) WaitQuiescent() {}
 // goroutine logs "recover unconfirm tx done" exactly once when it finishes.
 
 const recoverDoneMsg = "recover unconfirm tx done"
+const recoverAnnouncedMsg = "walk failed, recover unconfirm tx"
+
+func (l *CapLogger) recoverAnnounced() int {
+	l.mu.Lock()
+	defer l.mu.Unlock()
+	return l.recAnnounced
+}
 
 func (l *CapLogger) recoverDone() int {
 	l.mu.Lock()
@@ -81,6 +91,11 @@ func (l *CapLogger) noteInfo(msg string) {
 	if msg == recoverDoneMsg {
 		l.mu.Lock()
 		l.recDone++
+		l.mu.Unlock()
+	}
+	if msg == recoverAnnouncedMsg {
+		l.mu.Lock()
+		l.recAnnounced++
 		l.mu.Unlock()
 	}
 }
